@@ -125,6 +125,9 @@ def model_mismatches(rows):
              "what": "the queue calls an API method made, or whether it returned the queue's error, differ from the Coq model (api_run)"} for i in ids], out
 
 
+EXTRA = []
+
+
 def slow_oracle(r):
     cfg = "%s inside a slow queue.%s (400 ms), then %s" % (r["api"], r["slow_queue_method"], {"stop": "Stop()", "cancel": "cancellation of the Start context",
                                                                                        "stopstart": "Stop(); Start()", "isstarted": "IsStarted()"}[r["action"]])
@@ -140,18 +143,63 @@ def slow_oracle(r):
     return why
 
 
-def run_slow(binp):
+def extra_oracle(r):
+    if r["kind"] == "pushfault":
+        cfg = ("WithMisfiredChan(make(chan, %d)) that nobody drains, the loop's own re-Push fails %d times (%d did), then the queue is healthy"
+               % (r["misfired_chan_cap"], r["failing_repushes"], r["repushes_failed"]))
+        why = []
+        if r.get("calls_not_returned_within_5s"):
+            return ["%s: %s did not return within 5 s after the faults had stopped (the loop is blocked holding the queue lock)" % (cfg, ", ".join(r["calls_not_returned_within_5s"]))]
+        for k in r.get("stored_jobs_not_fired_within_5s") or []:
+            why.append("%s: job %s is still stored but did not fire within 5 s after the faults stopped" % (cfg, k))
+        if r["probe_execs"] != 1:
+            why.append("%s: a job scheduled afterwards, due 5 ms later, was executed %d times within 5 s" % (cfg, r["probe_execs"]))
+        if not r["wait_returned"]:
+            why.append("%s: Wait did not return after Stop" % cfg)
+        return why
+    if r["kind"] == "staletimer":
+        if r.get("error"):
+            return ["stale-timer scenario could not be driven: " + r["error"]]
+        if r["execs"] != 1:
+            return ["the loop of the stopped run was inside a slow %s() during Stop(); Start(); a job due in %d ms was scheduled, the new loop parked on it, then "
+                    "the slow call returned (no API call afterwards): the stored job was executed %d times within %d ms + 5 s"
+                    % (r["old_loop_held_in"], r["job_due_in_ms"], r["execs"], r["job_due_in_ms"])]
+    return []
+
+
+def extra_failures(binp, rows_all):
+    rows = [r for r in rows_all if r.get("kind") in ("pushfault", "staletimer")]
+    bad = [r for r in rows if extra_oracle(r)]
+    out = []
+    if bad:
+        again = [r for r in run_slow(binp, all_kinds=True) if r.get("kind") in ("pushfault", "staletimer") and extra_oracle(r)]
+        for kind in ("pushfault", "staletimer"):
+            b = [r for r in bad if r["kind"] == kind]
+            if b and any(r["kind"] == kind for r in again):
+                r = b[0]
+                out.append({"case": {"kind": kind, **{k: r[k] for k in ("misfired_chan_cap", "failing_repushes", "old_loop_held_in", "job_due_in_ms") if k in r}},
+                            "why": extra_oracle(r), "failing_trials": "%d of %d, then %d" % (len(b), len([x for x in rows if x["kind"] == kind]), len([x for x in again if x["kind"] == kind])),
+                            "how": "looph slowapi (pushfault: 3+k recurring jobs, the first k Push calls made by fetchAndReschedule fail, MisfiredChan never read; "
+                                   "staletimer: old loop held in a gated Size/Head, Stop, Start, ScheduleJob, 40 ms, release)"})
+    return rows, out
+
+
+def run_slow(binp, all_kinds=False):
     rc, rows, out = lc.run_json([binp, "slowapi"], timeout=300)
     if rc != 0:
         if "panic:" in out or "fatal error:" in out:
             m = out[out.find("panic:") if "panic:" in out else out.find("fatal error:"):]
             return [{"kind": "slowapi", "api": "ScheduleJob", "slow_queue_method": "Push", "action": "stop", "error": "the harness process died: " + m[:500]}]
         raise RuntimeError("looph slowapi failed: " + out[-2000:])
+    if all_kinds:
+        return rows
     return [r for r in rows if r.get("kind") == "slowapi"]
 
 
 def slow_failures(binp):
-    rows = run_slow(binp)
+    rows_all = run_slow(binp, all_kinds=True)
+    EXTRA[:] = rows_all
+    rows = [r for r in rows_all if r.get("kind") == "slowapi"]
     bad = [r for r in rows if slow_oracle(r)]
     out = []
     if bad:
@@ -200,6 +248,8 @@ def run(ctx):
                              "how": "looph faults: fixed API scenario on a scheduler whose JobQueue fails/delays the planned calls"})
     slow_rows, sf = slow_failures(binp)
     failures += sf
+    extra_rows, ef = extra_failures(binp, EXTRA)
+    failures += ef
     if lc.model_available() and rows:
         bad, mout = model_mismatches(rows)
         if bad is None:
@@ -225,7 +275,7 @@ def run(ctx):
     cov = vlib.proof_coverage(res, PROJ, "C15")
     cov.update({
         "evaluations": len(rows), "faults_fired": sum(r["faults_fired"] for r in rows), "loop_queue_calls": sum(r["loop_calls"] for r in rows),
-        "api_calls": sum(len(r["apis"]) for r in rows), "lifecycle_call_during_slow_api_trials": len(slow_rows),
+        "api_calls": sum(len(r["apis"]) for r in rows), "lifecycle_call_during_slow_api_trials": len(slow_rows), "repush_fault_with_undrained_misfired_chan_and_stale_timer_trials": len(extra_rows),
         "distinct_nontrivial": len({json.dumps(r["plan"], sort_keys=True) for r in rows if r["faults_fired"] > 0 or r["plan"]["fault"] == "delay" or r["plan"]["kind"] == "slow"}),
         "rule": "single fail / delay at call index i of each of Size, Head, Pop, Push, Get, Remove, ScheduledJobs, Clear over a fixed scenario of 18 API "
                 "calls on 6 jobs; bursts of 2/10/50 consecutive failures of Size/Head/Pop; random mixes 5/20/50 %; uniformly slow queue; error kinds "
@@ -251,6 +301,13 @@ def replay(ctx, path):
     obj = json.load(open(path))
     c = obj.get("case", {})
     binp = lc.looph()
+    if c.get("kind") in ("pushfault", "staletimer"):
+        bad = [r for r in run_slow(binp, all_kinds=True) if r.get("kind") == c["kind"] and extra_oracle(r)]
+        print(json.dumps(bad)[:2000])
+        if bad:
+            vlib.report_violation(ctx, {"case": c, "why": extra_oracle(bad[0])})
+            return 1
+        return 0
     if c.get("kind") == "slowapi":
         bad = [r for r in run_slow(binp) if (r["api"], r["action"]) == (c["api"], c["action"]) and slow_oracle(r)]
         print(json.dumps(bad))
